@@ -138,6 +138,56 @@ theorem bufPre_user {i ppid : Nat} {data : Bytes} {rest} {e e' : Ep}
       simp only [qsum, hj, false_and, if_false] at this
       omega
 
+/-- the accounting holds except for channel object `i` (whose queue entries were just dropped) -/
+def BufInvX (i : Nat) (e : Ep) : Prop :=
+  (∀ x ∈ e.dcQueue, x.1 < e.chans.length) ∧
+  (∀ (j : Nat) c, j ≠ i → e.chans[j]? = some c → c.ready ≠ 3 → c.buffered = qsum e.dcQueue j)
+
+theorem wp_setReady3_X {s : St} {i : Nat} (hX : BufInvX i s.1) :
+    WP (setReady i 3) (fun _ s' => BufInv s'.1) s := by
+  unfold setReady
+  wp_simp
+  have hkeep : ∀ c, s.1.chans[i]? = some c → c.ready = 3 → BufInv s.1 := by
+    intro c hc h3
+    refine ⟨hX.1, ?_⟩
+    intro j x hx hx3
+    by_cases hj : j = i
+    · subst hj; rw [hc] at hx; cases hx; exact absurd h3 hx3
+    · exact hX.2 j x hj hx hx3
+  cases hc : s.1.chans[i]? with
+  | none =>
+    simp only
+    refine ⟨hX.1, ?_⟩
+    intro j x hx hx3
+    by_cases hj : j = i
+    · subst hj; rw [hc] at hx; cases hx
+    · exact hX.2 j x hj hx hx3
+  | some c =>
+    simp only
+    have hlt : i < s.1.chans.length := (List.getElem?_eq_some_iff.1 hc).1
+    have key : BufInv { s.1 with chans := s.1.chans.set i { c with ready := 3 } } := by
+      refine ⟨by simpa using hX.1, ?_⟩
+      intro j x hx hx3
+      simp only at hx
+      by_cases hj : i = j
+      · subst hj
+        rw [List.getElem?_set_self hlt] at hx; cases hx
+        exact absurd rfl hx3
+      · rw [List.getElem?_set_ne hj] at hx
+        exact hX.2 j x (Ne.symm hj) hx hx3
+    split
+    · wp_simp
+      split
+      · split
+        · wp_simp; exact key
+        · split
+          · wp_simp; exact key
+          · wp_simp; exact key
+      · wp_simp; exact key
+    · rename_i h3
+      wp_simp
+      exact hkeep c hc (by simpa using h3)
+
 set_option hygiene false in
 /-- the rest of a `flushLoop` iteration once the stream id is known (uses the local facts `tailD`, `tailU`,
 `hpA`, `hlt` of `buf_flushLoop`) -/
@@ -201,6 +251,25 @@ theorem buf_flushLoop (fuel : Nat) : Pres bufSpec (flushLoop fuel) := by
           buf_tail
         · split
           · rename_i start hstart
+            wp_head
+            split
+            · -- no stream id left: the channel is closed, its entry is dropped
+              have hX : BufInvX i { s.1 with dcQueue := rest } := by
+                refine ⟨hrest, ?_⟩
+                intro j cj hj hcj h3
+                have := hI.2 j cj hcj h3
+                rw [hq] at this
+                simp only [qsum, Ne.symm hj, false_and, if_false] at this
+                simp only
+                omega
+              apply WP.bind_of (wp_setReady3_X (s := (_, _)) hX)
+              intro r s2 hI2
+              cases r with
+              | error k => exact fun h => (h trivial).elim
+              | ok u =>
+                simp only
+                wp_head
+                exact WP.call ih hI2 (fun r s' h hk => ⟨(h hk).1, trivial⟩)
             wp_head
             have hpA : BufPre ((i, ppid, data) :: rest)
                 { s.1 with dcQueue := rest
